@@ -64,10 +64,12 @@ pub fn gen_limits(w: &mut Rng, kind: LimitKind) -> Option<([f64; 6], [f64; 6])> 
             let mut f = [0.0; 6];
             let mut t = [0.0; 6];
             for i in 0..6 {
-                let c = w.range_f64(-60.0, 60.0f64).to_radians();
+                // centres far from zero give ordinary (non-wrapping) ranges that reach well past
+                // +-180 degrees on one side only, e.g. 0..270 or -300..-20
+                let c = if w.chance(0.3) { w.range_f64(-170.0, 170.0f64) } else { w.range_f64(-60.0, 60.0f64) }.to_radians();
                 let half = w.range_f64(40.0, 150.0f64).to_radians();
-                f[i] = c - half;
-                t[i] = c + half;
+                f[i] = (c - half).max(-2.0 * PI);
+                t[i] = (c + half).min(2.0 * PI);
             }
             Some((f, t))
         }
